@@ -1857,8 +1857,14 @@ impl Archive {
 
         if is_single_unit {
             log::debug!("Patch file is stored as single unit");
-            let compressed_data_size =
-                file_info.compressed_size as usize - patch_info_length as usize;
+            let compressed_data_size = (file_info.compressed_size as usize)
+                .checked_sub(patch_info_length as usize)
+                .ok_or_else(|| {
+                    Error::invalid_format(format!(
+                        "Patch info length {patch_info_length} exceeds stored size {}",
+                        file_info.compressed_size
+                    ))
+                })?;
 
             let mut data = vec![0u8; compressed_data_size];
             self.reader.read_exact(&mut data)?;
